@@ -6,6 +6,9 @@ from common import Pair, proof_stage, rebuild_tools, build_pqh, build_zoo, Lock,
 MODULE = "PQ.Props.C10"
 THEOREMS = ["PQ.C10." + t for t in ("source_sites_propagate", "source_calls_propagate", "next_reports", "source_inventory_covers",
     "next_within_rowgroup_src_indep", "inside_not_touching", "nextF_not_touching", "nextF_fault", "next_load_error_eq_fault")]
+EXTRA_MODULES = ["PQ.Lemmas.FaultRT", "PQ.Lemmas.FaultRTW"]
+EXTRA_THEOREMS = ["PQ.readOutcomeF_specWrite", "PQ.readOutcomeF_gen", "PQ.outLoopF_good_then_fault", "PQ.outLoopF_fault_now", "PQ.readOutcomeF_open",
+                  "PQ.readOutcomeF_runWriter", "PQ.outLoopF_batches", "PQ.outLoopF_ge", "PQ.readOutcomeF_ge"]
 
 
 def phases(trace):
@@ -25,7 +28,7 @@ def run(chk):
         cov["steps"] = rebuild_tools(chk.log)
         cov["steps"]["zoo"] = build_zoo(chk.log)
         build_pqh(chk.log)
-        pr = proof_stage(chk, MODULE, THEOREMS)
+        pr = proof_stage(chk, MODULE, THEOREMS + EXTRA_THEOREMS, EXTRA_MODULES, audit_imports=EXTRA_MODULES)
     pair = Pair(chk.log)
     zs = filelevel.load_zoos(pair, workloads.ZOOS)
     cases = iocommon.corpus(chk, pair, zs, thorough, per_zoo=(2 if thorough else 1))
